@@ -640,6 +640,9 @@ theorem refName_wire {buf : Bytes} {off : Nat} {ls : List Bytes} {rest : Bytes}
     DnsRef.name buf off = some (ls, (wire ls).length + 1) := by
   rw [name_unfold, h, scanRaw_wire ls rest hok]
 
+theorem take_append_of_length {α} {a b : List α} {k : Nat} (h : a.length = k) : (a ++ b).take k = a := by
+  subst h; exact List.take_left
+
 theorem rdataF_canon (buf : Bytes) : ∀ (L : List Field) (pos rem : Nat) (d : Bytes),
     DnsRef.rdataF buf L pos rem = some d → pos + rem ≤ buf.length →
     ∀ (buf2 : Bytes) (pos2 : Nat) (rest : Bytes), buf2.drop pos2 = d ++ rest →
@@ -699,8 +702,7 @@ theorem rdataF_canon (buf : Bytes) : ∀ (L : List Field) (pos rem : Nat) (d : B
           simp only [hlen, if_false, hsub]
           rw [ih (pos + k) (rem - k) d' hrest (by omega) buf2 _ rest hnext]
           have : (buf2.drop pos2).take k = (buf.drop pos).take k := by
-            rw [hb']; conv => lhs; rw [← hcl]
-            exact List.take_left
+            rw [hb']; exact take_append_of_length hcl
           simp [this]
     | cstr =>
       simp only [DnsRef.rdataF] at h
@@ -733,8 +735,7 @@ theorem rdataF_canon (buf : Bytes) : ∀ (L : List Field) (pos rem : Nat) (d : B
             simp only [hlen, if_false, hsub]
             rw [ih _ _ d' hrest (by omega) buf2 _ rest hnext]
             have : (c :: (tl.take c.toNat ++ (d' ++ rest))).take (1 + c.toNat) = (c :: tl).take (1 + c.toNat) := by
-              rw [← hb2, hb']; conv => lhs; rw [← hcl]
-              exact List.take_left
+              rw [← hb2, hb']; exact take_append_of_length hcl
             simp [this]
 
 theorem rdata_canon {buf : Bytes} {pos len ty : Nat} {d : Bytes} (h : DnsRef.rdata buf pos len ty = some d)
